@@ -437,6 +437,15 @@ example : exec .repaired wStd 3 { cmdOf 87 0 0 0 with snd := connName 0 } = Run.
 example : exec .repaired wStd 3 { cmdOf 86 0 0 0 with snd := connName 0 } = Run.failResp := by decide
 example : holds wStd 3 { cmdOf 87 0 0 0 with snd := connName 0 } (Run.okResp [.dom 0] [] []) Run.failResp = false := by decide
 example : holds wStd 3 { cmdOf 87 0 0 0 with snd := connName 0 } (Run.okResp [.dom 0] [] []) (Run.okResp [.dom 0] [] []) = false := by decide
+/-- cross-node DNS query (`handleDNSQueryCrossNode`): the authenticated sender on node 0 reaches the target on node 1
+through the state store / pool / listener, the pushed request names no sender; an unauthenticated sender reaches
+nobody; and `holds` rejects an observation in which the recipient was told a (claimed) sender -/
+example : exec .repaired { wTwo with xnode := true, bridge := false } 0 (cmdOf 121 0 1002 0) = ⟨true, .ok, [], [], [⟨1, 121, none⟩], []⟩ := by
+  decide
+example : exec .repaired { wTwo with xnode := true, conns := wTwo.conns ++ [⟨.unauth, 0, 0⟩] } 3 (cmdOf 121 0 1002 0) =
+    ⟨true, .fail, [], [], [], []⟩ := by decide
+example : holds { wTwo with xnode := true } 0 (cmdOf 121 0 1002 0) ⟨true, .ok, [], [], [⟨1, 121, some 2002⟩], []⟩
+    ⟨true, .ok, [], [], [⟨1, 121, some 2002⟩], []⟩ = false := by decide
 /-- `holds` rejects: a disclosure to a stranger; a packet whose claimed sender changed the outcome -/
 example : holds wStd 2 (cmdOf 75 0 0 0) ⟨true, .ok, [.map 0], [], [], []⟩ ⟨true, .ok, [.map 0], [], [], []⟩ = false := by decide
 example : holds wStd 2 (cmdOf 75 0 0 0) ⟨true, .ok, [], [], [], []⟩ Run.failResp = false := by decide
